@@ -75,6 +75,15 @@ def cmdScale (c : Codec α) : P String := do
   let s ← tok; let s ← (c.parse s : Option α); let which ← nat; let fs ← chain c; done
   pure (showChain c (scaleFactors s which fs))
 
+/-- `t.rmul K scalar center|- <chain>` → `<center|-> <chain>` -/
+def cmdRmul (c : Codec α) : P String := do
+  let s ← tok; let s ← (c.parse s : Option α)
+  let ct ← tok
+  let center ← (if ct = "-" then some none else ct.toNat?.map some : Option (Option Nat))
+  let fs ← chain c; done
+  let (gs, ctr) := rmulFactors s center fs
+  pure ((match ctr with | none => "-" | some k => toString k) ++ " " ++ showChain c gs)
+
 def cmdInner (c : Codec α) : P String := do
   let A ← chain c; let B ← chain c; done
   match inner A B with
@@ -222,6 +231,7 @@ def handlers : List (String × (List String → Option String)) :=
   [("t.amp", withKind (cmdAmp codecZ) (cmdAmp codecF)),
    ("t.add", withKind (cmdAdd codecZ) (cmdAdd codecF)),
    ("t.scale", withKind (cmdScale codecZ) (cmdScale codecF)),
+   ("t.rmul", withKind (cmdRmul codecZ) (cmdRmul codecF)),
    ("t.inner", withKind (cmdInner codecZ) (cmdInner codecF)),
    ("t.expect", withKind (cmdExpect codecZ) (cmdExpect codecF)),
    ("t.zip", withKind (cmdZip codecZ) (cmdZip codecF)),
